@@ -27,6 +27,8 @@ struct Reenter {
     handle: Mutex<Option<log4rs::Handle>>,
     next: Box<dyn Fn() -> Config + Send + Sync>,
     returned: AtomicBool,
+    /// after the swap has returned, still inside `append`, log one more record (id 7) through this logger
+    nested: Mutex<Option<Arc<log4rs::Logger>>>,
 }
 
 struct GenCap {
@@ -53,6 +55,10 @@ impl Append for GenCap {
                 if let Some(h) = h {
                     h.set_config((r.next)());
                     r.returned.store(true, Ordering::SeqCst);
+                    let nested = r.nested.lock().unwrap().clone();
+                    if let Some(l) = nested {
+                        with_record("t", log::Level::Info, "7", |rec| l.log(rec));
+                    }
                     if r.fail_after_swap {
                         anyhow::bail!("verif: failure after the re-entrant swap");
                     }
@@ -76,9 +82,17 @@ pub struct Plan {
     pub swappers: Vec<u16>,
     /// threads that swap and then log themselves (own set_config returned => new generation)
     pub self_checkers: usize,
+    /// per generation shape: the root (and with it everything) is switched off - a record routed under such a
+    /// configuration reaches nobody, so any delivery tagged with it was admitted under a different configuration
+    #[serde(default)]
+    pub off: Vec<bool>,
 }
 
 fn make_config(gen: usize, m: usize, order: u16, sink: &Deliveries, reenter: Option<(usize, Arc<Reenter>)>) -> Config {
+    make_config_at(gen, m, order, sink, reenter, log::LevelFilter::Trace)
+}
+
+fn make_config_at(gen: usize, m: usize, order: u16, sink: &Deliveries, reenter: Option<(usize, Arc<Reenter>)>, level: log::LevelFilter) -> Config {
     // positions are declared in a generated order so that index tables differ between generations
     let mut idx: Vec<usize> = (0..m).collect();
     let rot = (order as usize) % m.max(1);
@@ -95,7 +109,7 @@ fn make_config(gen: usize, m: usize, order: u16, sink: &Deliveries, reenter: Opt
     for p in 0..m {
         root = root.appender(format!("g{}a{}", gen, p));
     }
-    b.build(root.build(log::LevelFilter::Trace)).expect("valid configuration")
+    b.build(root.build(level)).expect("valid configuration")
 }
 
 pub fn plan_strategy() -> impl Strategy<Value = Plan> {
@@ -105,15 +119,21 @@ pub fn plan_strategy() -> impl Strategy<Value = Plan> {
         prop::collection::vec(200usize..1500, 1..=6),
         prop::collection::vec(0u16..400, 1..=2),
         0usize..=2,
+        prop::collection::vec(prop::bool::weighted(0.25), 6),
     )
-        .prop_map(|(mut fanout, order, loggers, swappers, self_checkers)| {
+        .prop_map(|(mut fanout, order, loggers, swappers, self_checkers, mut off)| {
+            // the first shape stays on (the logger starts with it), and self-checking plans need every record delivered
+            off[0] = false;
+            if self_checkers > 0 {
+                off.iter_mut().for_each(|o| *o = false);
+            }
             // neighbours differ in fan-out
             for i in 1..fanout.len() {
                 if fanout[i] == fanout[i - 1] {
                     fanout[i] = fanout[i] % 5 + 1;
                 }
             }
-            Plan { fanout, order, loggers, swappers, self_checkers }
+            Plan { fanout, order, loggers, swappers, self_checkers, off }
         })
 }
 
@@ -139,7 +159,10 @@ pub fn check_plan(plan: &Plan, obs: &mut Obs) -> CaseResult {
     let fan = plan.fanout.clone();
     let ord = plan.order.clone();
     let s2 = sink.clone();
-    let mk = Arc::new(move |g: usize| make_config(g, fan[g % k], ord[g % ord.len()], &s2, None));
+    let offs = plan.off.clone();
+    let is_off = move |g: usize| offs.get(g % k).copied().unwrap_or(false);
+    let is_off2 = is_off.clone();
+    let mk = Arc::new(move |g: usize| make_config_at(g, fan[g % k], ord[g % ord.len()], &s2, None, if is_off2(g) { log::LevelFilter::Off } else { log::LevelFilter::Trace }));
     let logger = Arc::new(log4rs::Logger::new(mk(0)));
     let handle = logger.verif_handle();
     let stop = Arc::new(AtomicBool::new(false));
@@ -221,10 +244,15 @@ pub fn check_plan(plan: &Plan, obs: &mut Obs) -> CaseResult {
     }
     let d = sink.lock().unwrap().clone();
     let fanout = plan.fanout.clone();
+    if let Some(x) = d.iter().find(|x| is_off(x.0)) {
+        return fail("C15:routed-under-a-configuration-that-rejects-it", format!("record {} was delivered to appender {} of configuration {} whose root level is Off: it was admitted under one configuration and routed under another", x.2, x.1, x.0));
+    }
     verify_deliveries(&d, &move |g| fanout[g % k], "concurrent plan")?;
     let total: usize = plan.loggers.iter().sum::<usize>() + plan.self_checkers.min(1) * 200;
     let ids: std::collections::BTreeSet<u64> = d.iter().map(|x| x.2).collect();
-    ensure!(ids.len() == total, "C15:lost-record", "{} records logged, {} delivered", total, ids.len());
+    let any_off = plan.off.iter().take(k).any(|o| *o);
+    ensure!(ids.len() == total || (any_off && ids.len() < total), "C15:lost-record", "{} records logged, {} delivered", total, ids.len());
+    obs.class_if(any_off, "some-configurations-switch-everything-off");
     let swaps = current_gen.load(Ordering::SeqCst);
     let gens: std::collections::BTreeSet<usize> = d.iter().map(|x| x.0).collect();
     obs.sub_evals += total as u64;
@@ -242,17 +270,24 @@ pub struct Reentrant {
     pub order: u16,
     #[serde(default)]
     pub fail_after_swap: bool,
+    /// the swapping appender logs one more record after set_config has returned, still inside append
+    #[serde(default)]
+    pub nested_after_swap: bool,
 }
 
 pub fn check_reentrant(c: &Reentrant, obs: &mut Obs) -> CaseResult {
     let sink: Deliveries = Arc::new(Mutex::new(vec![]));
     let (s2, m_new, order) = (sink.clone(), c.m_new, c.order);
-    let re = Arc::new(Reenter { fail_after_swap: c.fail_after_swap, armed: AtomicBool::new(false), handle: Mutex::new(None), next: Box::new(move || make_config(1, m_new, order.rotate_left(3), &s2, None)), returned: AtomicBool::new(false) });
+    let re = Arc::new(Reenter { fail_after_swap: c.fail_after_swap, armed: AtomicBool::new(false), handle: Mutex::new(None), next: Box::new(move || make_config(1, m_new, order.rotate_left(3), &s2, None)), returned: AtomicBool::new(false), nested: Mutex::new(None) });
     let pos = c.position % c.m_old;
     let handled: Arc<Mutex<Vec<String>>> = Arc::new(Mutex::new(vec![]));
     let h2 = handled.clone();
     let logger = log4rs::Logger::new_with_err_handler(make_config(0, c.m_old, c.order, &sink, Some((pos, re.clone()))), Box::new(move |e: &anyhow::Error| h2.lock().unwrap().push(e.to_string())));
     *re.handle.lock().unwrap() = Some(logger.verif_handle());
+    let logger = Arc::new(logger);
+    if c.nested_after_swap {
+        *re.nested.lock().unwrap() = Some(logger.clone());
+    }
     // an ordinary record first
     if let Err(p) = catch(|| with_record("t", log::Level::Info, "1", |r| logger.log(r))) {
         return fail("C15:panic", format!("log() panicked: {}", p));
@@ -277,6 +312,11 @@ pub fn check_reentrant(c: &Reentrant, obs: &mut Obs) -> CaseResult {
     let gen_of = |id: u64| d.iter().find(|x| x.2 == id).map(|x| x.0);
     ensure!(gen_of(2) == Some(0), "C15:reentrant-inflight", "the record in flight during the re-entrant swap was routed under {:?}, expected entirely the old configuration", gen_of(2));
     ensure!(gen_of(3) == Some(1), "C15:stale-after-swap", "the record after the re-entrant swap was routed under {:?}, expected the new configuration", gen_of(3));
+    if c.nested_after_swap {
+        ensure!(gen_of(7) == Some(1), "C15:stale-after-swap", "the appender that swapped the configuration logged another record after set_config had returned (still inside append): it was routed under {:?}, expected the new configuration", gen_of(7));
+        obs.class("nested-record-after-the-re-entrant-swap");
+    }
+    *re.nested.lock().unwrap() = None;
     obs.nontrivial = true;
     obs.class(format!("position={}/{}", pos, c.m_old));
     Ok(())
@@ -680,6 +720,9 @@ pub struct Smoke {
     /// (`ln -sfn`, ConfigMap-style) instead of editing the file in place
     #[serde(default)]
     pub symlink: bool,
+    /// with `symlink`: the link stays as it is and the file it points to is edited in place
+    #[serde(default)]
+    pub edit_target_in_place: bool,
 }
 
 pub fn smoke_child(c: &Smoke, obs: &mut Obs) -> CaseResult {
@@ -692,7 +735,10 @@ pub fn smoke_child(c: &Smoke, obs: &mut Obs) -> CaseResult {
     let text = |v: u8| variant_text(v, None, false).replace("appenders:\n  p:", "refresh_rate: 20ms\nappenders:\n  p:");
     let version = std::cell::Cell::new(0u32);
     let publish = |content: &str| {
-        if c.symlink {
+        if c.symlink && c.edit_target_in_place && version.get() > 0 {
+            // (writing through the link edits the file it points to)
+            std::fs::write(&path, content).unwrap();
+        } else if c.symlink {
             // a new file, then the link is swapped over to it in one rename
             let k = version.get() + 1;
             version.set(k);
@@ -729,7 +775,7 @@ pub fn smoke_child(c: &Smoke, obs: &mut Obs) -> CaseResult {
     std::thread::sleep(Duration::from_millis(30));
     publish(&text(1));
     if !wait_for("v1") {
-        return fail(if c.symlink { "C15:valid-change-not-applied:symlink-swap" } else { "C15:valid-change-not-applied:reloader-thread" }, format!("the reloader started by init_file (refresh_rate 20 ms) did not apply a valid new version of the file within 30 s{}", if c.symlink { " (the configured path is a symbolic link that was re-pointed to the new version)" } else { "" }));
+        return fail(if c.symlink && c.edit_target_in_place { "C15:valid-change-not-applied:symlink-target-edited" } else if c.symlink { "C15:valid-change-not-applied:symlink-swap" } else { "C15:valid-change-not-applied:reloader-thread" }, format!("the reloader started by init_file (refresh_rate 20 ms) did not apply a valid new version of the file within 30 s{}", if c.symlink { " (the configured path is a symbolic link that was re-pointed to the new version)" } else { "" }));
     }
     publish("{{{ garbage");
     std::thread::sleep(Duration::from_millis(120));
@@ -744,9 +790,9 @@ pub fn smoke_child(c: &Smoke, obs: &mut Obs) -> CaseResult {
     Ok(())
 }
 
-pub fn check_smoke(tmp: &Path, symlink: bool, obs: &mut Obs) -> CaseResult {
+pub fn check_smoke(tmp: &Path, mode: u8, obs: &mut Obs) -> CaseResult {
     let dir = scratch(tmp, "c15smoke");
-    let out = call_child(tmp, "c15smoke", &Smoke { dir: dir.display().to_string(), symlink }, &[], Duration::from_secs(150));
+    let out = call_child(tmp, "c15smoke", &Smoke { dir: dir.display().to_string(), symlink: mode >= 1, edit_target_in_place: mode == 2 }, &[], Duration::from_secs(150));
     let _ = std::fs::remove_dir_all(&dir);
     if let Some(f) = &out.failure {
         if f.sig == "INCONCLUSIVE" {
@@ -772,21 +818,23 @@ pub fn run(run: &Run) {
                 for position in 0..m_old {
                     for order in [0u16, 1, 2, 7] {
                         for fail_after_swap in [false, true] {
-                            ok &= run.eval_one("reentrant", &Reentrant { m_old, m_new, position, order, fail_after_swap }, &check_reentrant);
+                            ok &= run.eval_one("reentrant", &Reentrant { m_old, m_new, position, order, fail_after_swap, nested_after_swap: (position + m_new + order as usize) % 2 == 0 }, &check_reentrant);
                         }
                     }
                 }
             }
         }
         if ok {
-            run.exhaustive("re-entrant set_config from inside append at every fan-out position 0..m-1 for old fan-out 1-5 x new fan-out 1-5 x 4 declaration orders");
+            run.exhaustive("re-entrant set_config from inside append at every fan-out position (in half of them the swapping appender logs one more record after set_config returned, which must use the new configuration) 0..m-1 for old fan-out 1-5 x new fan-out 1-5 x 4 declaration orders");
         }
-        let t3 = tmp.clone();
-        run.eval_one("reloader-smoke", &0u8, &move |k: &u8, o: &mut Obs| check_smoke(&t3, *k == 1, o));
     }
-    if run.worker.0 == 1 % run.worker.1 {
-        let t3 = tmp.clone();
-        run.eval_one("reloader-smoke", &1u8, &move |k: &u8, o: &mut Obs| check_smoke(&t3, *k == 1, o));
+    // three smoke cases through the real init_file: in-place edits, a re-pointed symbolic link, a symbolic link whose
+    // target is edited in place
+    for mode in 0u8..3 {
+        if run.worker.0 == mode as u32 % run.worker.1 {
+            let t3 = tmp.clone();
+            run.eval_one("reloader-smoke", &mode, &move |k: &u8, o: &mut Obs| check_smoke(&t3, *k, o));
+        }
     }
     run.search("swap", run.tier.pick(200, 10_000), plan_strategy(), &check_plan);
     let t1 = tmp.clone();
@@ -807,7 +855,7 @@ pub fn replay(part: &str, case: serde_json::Value) -> Option<CaseResult> {
         "reloader-smoke" => {
             let tmp = std::env::temp_dir().join(format!("lv-replay-{}", std::process::id()));
             std::fs::create_dir_all(&tmp).ok()?;
-            let r = check_smoke(&tmp, case.as_u64() == Some(1), &mut Obs::default());
+            let r = check_smoke(&tmp, case.as_u64().unwrap_or(0) as u8, &mut Obs::default());
             let _ = std::fs::remove_dir_all(&tmp);
             Some(r)
         }
@@ -818,7 +866,7 @@ pub fn replay(part: &str, case: serde_json::Value) -> Option<CaseResult> {
 pub fn meta() -> EvidenceMeta {
     EvidenceMeta {
         level: "exploration",
-        rule: "part swap: a family of configurations whose generation g attaches m_g (1-5, neighbours differ) tagged capture appenders to the root in generated declaration orders; 1-6 logging threads x 200-1500 records with unique ids against 1-2 reconfiguring threads stepping through the family as fast as they can, plus 0-2 threads that call set_config and then log themselves; oracle: no panic; every record id is delivered under exactly one generation and to exactly that generation's m_g appenders; a record logged after the thread's own set_config returned never uses an older generation. part reentrant (exhaustive): an appender at every fan-out position 0..m-1 calls Handle::set_config from inside append: the record in flight completes entirely under the old configuration, the next one uses the new one. part reloader (guarded single-step API, real ConfigReloader::run_once): histories of 1-12 file edits between polls (valid variants that differ in routing, touch, nop, four kinds of garbage, deletion, recreation, same-mtime-different-bytes, refresh-rate change/removal; mtimes set explicitly) against a model of the statement; the active configuration is observed behaviourally (probe records through a custom 'probe' appender kind registered in Deserializers, which also counts rebuilds); plus one real-time smoke case of init_file with refresh_rate 20ms in a child process (timeout = inconclusive). Reloader edits include a valid document plus a byte that is not UTF-8 (unreadable: reported, last good kept). Two smoke cases through the real init_file (in-place edits; a symbolic link re-pointed atomically): a valid change not applied within 30 s at refresh_rate 20 ms is a violation. non-trivial = >= 3 generations observed (swap); every reentrant case; a valid change after a bad file, a rate change or a touch (reloader)".into(),
+        rule: "part swap: a family of configurations whose generation g attaches m_g (1-5, neighbours differ) tagged capture appenders to the root in generated declaration orders; 1-6 logging threads x 200-1500 records with unique ids against 1-2 reconfiguring threads stepping through the family as fast as they can, plus 0-2 threads that call set_config and then log themselves; oracle: no panic; every record id is delivered under exactly one generation and to exactly that generation's m_g appenders; a record logged after the thread's own set_config returned never uses an older generation. part reentrant (exhaustive): an appender at every fan-out position 0..m-1 calls Handle::set_config from inside append: the record in flight completes entirely under the old configuration, the next one uses the new one. part reloader (guarded single-step API, real ConfigReloader::run_once): histories of 1-12 file edits between polls (valid variants that differ in routing, touch, nop, four kinds of garbage, deletion, recreation, same-mtime-different-bytes, refresh-rate change/removal; mtimes set explicitly) against a model of the statement; the active configuration is observed behaviourally (probe records through a custom 'probe' appender kind registered in Deserializers, which also counts rebuilds); plus one real-time smoke case of init_file with refresh_rate 20ms in a child process (timeout = inconclusive). Reloader edits include a valid document plus a byte that is not UTF-8 (unreadable: reported, last good kept). Three smoke cases through the real init_file (in-place edits; a symbolic link re-pointed atomically; a symbolic link whose target is edited in place): a valid change not applied within 30 s at refresh_rate 20 ms is a violation. non-trivial = >= 3 generations observed (swap); every reentrant case; a valid change after a bad file, a rate change or a touch (reloader)".into(),
         assumptions: vec![
             "OS scheduler not controlled: swaps between two specific instructions of Log::log are hit statistically (volume) - the re-entrant plans place the swap deterministically at every fan-out position".into(),
             "liveness of the reloader thread: single-step API plus one bounded real-time smoke case".into(),
